@@ -6,6 +6,7 @@ import (
 	"fmt"
 	"math/rand"
 	"strings"
+	"time"
 
 	"verif/harness/internal/wire"
 )
@@ -19,7 +20,11 @@ type c07Case struct {
 	Raw   []byte   `json:"raw,omitempty"` // TCP only: raw stream bytes instead of framed Msgs
 	Flag  bool     `json:"flag"`          // semantic input: run the join probe right after it
 	Decoded bool   `json:"decoded"`       // reaches a decoder (post-handshake, or type 1 pre-handshake)
-	uids    []string
+	// SecondMsgs, if set, is a second hostile session opened while the first is still up: it completes the
+	// handshake under SecondID and then sends SecondMsgs.
+	SecondID   string   `json:"second_id,omitempty"`
+	SecondMsgs [][]byte `json:"second_msgs,omitempty"`
+	uids       []string
 }
 
 var jsonSubst = []string{`null`, `true`, `false`, `0`, `-1`, `1e308`, `1.5`, `""`, `"x"`, `[]`, `[1]`, `{}`, `{"a":1}`, `{"a":"b"}`, `18446744073709551615`, `-0.0`}
@@ -224,6 +229,62 @@ func genC07(seed int64, thorough bool, target string) []*c07Case {
 		bigTags[fmt.Sprintf("k%d", i)] = strings.Repeat("v", 10)
 	}
 	asem("big-tags", wire.EncodeAdvert(&wire.Advert{NodeID: "pt", Service: "s", Tags: bigTags}))
+	// 5b. advertisement / withdrawal histories of a phantom owner on one session (replays, stale ads, re-adverts)
+	{
+		t0 := time.Date(2031, 5, 1, 12, 0, 0, 0, time.UTC)
+		adv := func(owner, svc string, at time.Time, cancel bool) []byte {
+			return wire.EncodeAdvert(&wire.Advert{NodeID: owner, Service: svc, Time: at, ConnType: 0, Tags: map[string]string{"g": "1"}, Cancel: cancel})
+		}
+		o := func() string { return fmt.Sprintf("po%d", len(cases)) }
+		x := o()
+		asem("seq:cancel-replayed", adv(x, "s", t0, true), adv(x, "s", t0, true))
+		x = o()
+		asem("seq:cancel-then-older-ad", adv(x, "s", t0, true), adv(x, "s", t0.Add(-time.Second), false))
+		x = o()
+		asem("seq:ad-cancel-old-ad", adv(x, "s", t0, false), adv(x, "s", t0.Add(time.Second), true), adv(x, "s", t0, false), adv(x, "s", t0.Add(time.Second), true))
+		x = o()
+		asem("seq:ad-replayed", adv(x, "s", t0, false), adv(x, "s", t0, false), adv(x, "s", t0.Add(-time.Hour), false))
+		x = o()
+		asem("seq:cancel-then-newer-ad-then-cancel", adv(x, "s", t0, true), adv(x, "s", t0.Add(time.Minute), false), adv(x, "s", t0.Add(2*time.Minute), true), adv(x, "s", t0.Add(2*time.Minute), true))
+		x = o()
+		asem("seq:two-services-cancel-one-twice", adv(x, "s", t0, false), adv(x, "t", t0, false), adv(x, "s", t0.Add(time.Second), true), adv(x, "s", t0.Add(time.Second), true), adv(x, "t", t0, false))
+	}
+	// 5c. two hostile sessions: the first talks about an origin, the second then connects under that very id
+	{
+		two := func(label string, secondID func(k int) string, conns ...string) {
+			k := len(cases)
+			p := fmt.Sprintf("pp%d", k)
+			msgs := [][]byte{}
+			for i, cj := range conns {
+				f := routeFields(uid(), p, h(), i+1)
+				g := [][2]string{}
+				for _, kv := range f {
+					if kv[0] == "Connections" {
+						if cj == "absent" {
+							continue
+						}
+						kv[1] = cj
+					}
+					g = append(g, kv)
+				}
+				msgs = append(msgs, typed(1, jobj(g)))
+			}
+			c := add("two-sessions:"+label, "post", true, msgs...)
+			c.SecondID = secondID(k)
+			c.SecondMsgs = [][]byte{wire.EncodeRoute(&wire.Route{NodeID: c.SecondID, UpdateID: uid(), UpdateEpoch: 6, UpdateSequence: 2, Connections: map[string]float64{target: 1, "far": 2}, ForwardingNode: c.SecondID})}
+		}
+		asOrigin := func(k int) string { return fmt.Sprintf("pp%d", k) }
+		two("origin-then-peer:conns", asOrigin, `{"q":1}`)
+		two("origin-then-peer:null", asOrigin, `null`)
+		two("origin-then-peer:conns-then-null", asOrigin, `{"q":1}`, `null`)
+		two("origin-then-peer:conns-then-empty", asOrigin, `{"q":1}`, `{}`)
+		two("origin-then-peer:conns-then-absent", asOrigin, `{"q":1}`, `absent`)
+		two("origin-then-peer:lists-target", asOrigin, fmt.Sprintf(`{%q:3}`, target))
+		two("origin-then-peer:lists-target-then-null", asOrigin, fmt.Sprintf(`{%q:3}`, target), `null`)
+		two("same-id-twice", func(k int) string { return fmt.Sprintf("h%d", k) }, `{"q":1}`)
+		two("second-as-target", func(int) string { return target }, `{"q":1}`)
+		two("second-empty-id", func(int) string { return "" }, `{"q":1}`)
+	}
 	// 6. data packets: header corruptions, reserved services with garbage
 	dsem := func(label string, flag bool, msgs ...[]byte) { add("data:"+label, "post", flag, msgs...) }
 	for l := 1; l < 36; l += 5 {
